@@ -40,6 +40,7 @@ SENT2 = "Z9HIDDENw"
 REPR_SENT = "R3PRs3c"      # only in what __repr__ returns
 DUNDER_SENT = "DUNDs3c"    # only in what __format__(spec != "") / __reduce__ / __getstate__ / __bytes__ / __dir__ return
 REPR_SIG = "repr-of-object-inside-dict-rendered"
+KWARG_SIG = "filter-injected-argument-overridable"
 
 # ----------------------------------------------------------------------------
 # logs
@@ -110,6 +111,191 @@ class LogModule(types.ModuleType):
 
 
 # ----------------------------------------------------------------------------
+# hybrid shapes (implementation-side oracles only): objects that are legal
+# collections / records AND carry ordinary Python attributes, with the secrets
+# in properties, class attributes and methods.
+#
+# spec := ("hyb", {"cls": name, "secret": sentinel})
+
+
+class _HybLog:
+    _c05kind = "plain"
+
+    def __getattribute__(self, name: str) -> Any:
+        _log_read(name, type(self)._c05kind)
+        return super().__getattribute__(name)
+
+
+def _logged_repr(text: str) -> Any:
+    def __repr__(self):  # type: ignore[no-untyped-def]
+        f = sys._getframe(1)
+        LOG.reprs.append((f.f_code.co_filename, f.f_lineno))
+        return text
+    return __repr__
+
+
+_HYBRIDS: dict[str, dict[str, Any]] = {}
+
+HYBRID_ATTRS = {
+    "acct": ["api_token", "SIGNING_KEY", "rotate", "_asdict", "_fields", "_replace", "_make", "name", "id",
+             "__class__", "count", "index", "__getnewargs__", "_field_defaults"],
+    "cred": ["password", "LEVELS", "check", "user", "level", "_asdict", "__doc__"],
+    "dsub": ["secret", "prop", "meth", "copy", "pop", "__dict__", "fromkeys"],
+    "lsub": ["secret", "prop", "meth", "append", "pop", "__dict__", "sort"],
+    "dcls": ["secret", "title", "prop", "meth", "__dataclass_fields__", "__dict__", "__eq__"],
+    "slot": ["secret", "title", "__slots__", "meth"],
+    "enum": ["value", "name", "_value_", "_name_", "describe", "__members__", "secret"],
+    "nsp": ["secret", "token", "__dict__", "meth"],
+}
+
+
+def hybrids(secret: str) -> dict[str, Any]:
+    """name -> zero-argument constructor, for objects holding [secret]."""
+    if secret in _HYBRIDS:
+        return _HYBRIDS[secret]
+    import collections
+    import dataclasses
+    import enum
+    import typing
+
+    def mkprop(n: str) -> property:
+        def getter(self):  # type: ignore[no-untyped-def]
+            LOG.calls.append("property:" + n)
+            return secret + "p"
+        return property(getter)
+
+    def mkmeth(n: str) -> Any:
+        def m(self, *a, **k):  # type: ignore[no-untyped-def]
+            LOG.calls.append("method:" + n)
+            return secret + "m"
+        return m
+
+    _Acct = collections.namedtuple("Acct", ["id", "name"])
+
+    class Acct(_HybLog, _Acct):  # a Sequence whose fields are also attributes
+        _c05kind = "sequence"
+        SIGNING_KEY = secret + "K"
+        api_token = mkprop("api_token")
+        rotate = mkmeth("rotate")
+
+    class _Cred(typing.NamedTuple):
+        user: str
+        level: int = 1
+
+    class Cred(_HybLog, _Cred):
+        _c05kind = "sequence"
+        LEVELS = (secret + "L",)
+        password = mkprop("password")
+        check = mkmeth("check")
+
+    class DSub(_HybLog, dict):  # type: ignore[type-arg]
+        _c05kind = "mapping"
+        prop = mkprop("prop")
+        meth = mkmeth("meth")
+
+    class LSub(_HybLog, list):  # type: ignore[type-arg]
+        _c05kind = "sequence"
+        prop = mkprop("prop")
+        meth = mkmeth("meth")
+
+    @dataclasses.dataclass(repr=False, eq=False)
+    class DCls(_HybLog):
+        title: str
+        secret: str
+        prop = mkprop("prop")
+        meth = mkmeth("meth")
+        __repr__ = _logged_repr("DCls(title='t', secret='%s')" % REPR_SENT)
+
+        def __getitem__(self, k):  # type: ignore[no-untyped-def]
+            if k == "title":
+                return object.__getattribute__(self, "title")
+            raise KeyError(k)
+
+        def __str__(self) -> str:
+            return "DCls#t"
+
+    class Slot(_HybLog):
+        __slots__ = ("title", "secret")
+        meth = mkmeth("meth")
+        __repr__ = _logged_repr("Slot(secret='%s')" % REPR_SENT)
+
+        def __init__(self) -> None:
+            object.__setattr__(self, "title", "t")
+            object.__setattr__(self, "secret", secret)
+
+        def __str__(self) -> str:
+            return "Slot#t"
+
+    class Color(_HybLog, enum.Enum):
+        RED = secret + "v"
+        describe = mkmeth("describe")
+
+        def __str__(self) -> str:
+            return "Color.RED"
+
+        __repr__ = _logged_repr("<Color.RED: '%s'>" % REPR_SENT)
+
+    class NSp(_HybLog, types.SimpleNamespace):
+        meth = mkmeth("meth")
+        __repr__ = _logged_repr("namespace(secret='%s')" % REPR_SENT)
+
+        def __str__(self) -> str:
+            return "NSp#1"
+
+    def dsub() -> Any:
+        d = DSub(a=1, k="v")
+        object.__setattr__(d, "secret", secret)
+        return d
+
+    def lsub() -> Any:
+        x = LSub([1, "q"])
+        object.__setattr__(x, "secret", secret)
+        return x
+
+    _HYBRIDS[secret] = {
+        "acct": lambda: Acct(7, "n"),
+        "cred": lambda: Cred("u", 2),
+        "dsub": dsub,
+        "lsub": lsub,
+        "dcls": lambda: DCls("t", secret),
+        "slot": Slot,
+        "enum": lambda: Color.RED,
+        "nsp": lambda: NSp(secret=secret, token=secret + "t"),
+    }
+    return _HYBRIDS[secret]
+
+
+def hybrid_data() -> list[tuple[str, tuple]]:
+    data: list[tuple[str, tuple]] = [(n, ("hyb", {"cls": n, "secret": SENT})) for n in HYBRID_ATTRS]
+    data.append(("hl", ("list", [v for _, v in data if v[1]["cls"] not in ("acct", "cred")])))
+    data.append(("tl", ("list", [data[0][1], data[1][1]])))
+    data.append(("kk", ("str", "api_token")))
+    return data
+
+
+def hybrid_templates() -> list[str]:
+    out = []
+    for v, names in HYBRID_ATTRS.items():
+        for n in names:
+            out += [
+                f"{{{{ {v}.{n} }}}}", f"{{{{ {v}['{n}'] }}}}", f"{{% assign k = '{n}' %}}{{{{ {v}[k] }}}}",
+                f"{{{{ {v}.{n}.x }}}}|{{{{ {v}.{n}[0] }}}}|{{{{ {v}.{n}.first }}}}",
+                f"{{{{ {v} | map: '{n}' | join: ',' }}}}", f"{{{{ hl | map: '{n}' | join: ',' }}}}",
+                f"{{{{ tl | map: '{n}' | join: ',' }}}}", f"{{{{ hl | where: '{n}' | size }}}}",
+                f"{{{{ {v} | sort: '{n}' | size }}}}", f"{{{{ {v} | sum: '{n}' }}}}", f"{{{{ {v} | find: '{n}' }}}}",
+                f"{{{{ {v} | has: '{n}' }}}}", f"{{{{ {v} | uniq: '{n}' | size }}}}", f"{{{{ {v} | compact: '{n}' | size }}}}",
+                f"{{{{ hl | map: x => x.{n} | join: ',' }}}}", f"{{{{ tl | map: x => x.{n} | join: ',' }}}}",
+                f"{{% if {v}.{n} %}}T{{% else %}}E{{% endif %}}{{{{ {v}.{n} | default: 'D' }}}}",
+                f"{{% for x in {v} %}}[{{{{ x }}}}{{{{ x.{n} }}}}]{{% else %}}none{{% endfor %}}",
+                f"{{% for x in {v}.{n} %}}[{{{{ x }}}}]{{% else %}}none{{% endfor %}}",
+            ]
+        out += [f"{{{{ {v} }}}}|{{{{ {v}[0] }}}}|{{{{ {v}.first }}}}|{{{{ {v}.last }}}}|{{{{ {v}.size }}}}|{{{{ {v} | size }}}}",
+                f"{{{{ {v} | join: ',' }}}}|{{{{ {v} | first }}}}|{{{{ {v} | json }}}}|{{{{ {v}[kk] }}}}|{{{{ {v}[{v}] }}}}",
+                f"{{{{ {v} | default: 'D' }}}}|{{% if {v} == {v} %}}eq{{% endif %}}|{{% if {v} contains 'secret' %}}c{{% endif %}}"]
+    return out
+
+
+# ----------------------------------------------------------------------------
 # value specs -> real Python objects
 #
 # spec := ("nil",) | ("bool", b) | ("int", z) | ("str", s) | ("list", [spec])
@@ -132,6 +318,11 @@ def build(spec: tuple, memo: dict[int, Any]) -> Any:
         return tuple(build(x, memo) for x in spec[1])
     if t == "dict":
         return {k: build(v, memo) for k, v in spec[1]}
+    if t == "hyb":
+        key = ("hyb", spec[1]["cls"], spec[1]["secret"])
+        if key not in memo:
+            memo[key] = hybrids(spec[1]["secret"])[spec[1]["cls"]]()   # type: ignore[index]
+        return memo[key]                                                # type: ignore[index]
     if t == "obj":
         o = spec[1]
         if o["id"] in memo:
@@ -763,6 +954,8 @@ class Gen:
         r = self.r
         if cur is not None and cur[0] == "obj" and r.random() < 0.6:
             return r.choice([n for n, _ in cur[1]["attrs"]])
+        if cur is not None and cur[0] == "hyb":
+            return r.choice(HYBRID_ATTRS[cur[1]["cls"]])
         if self.loop_depth and r.random() < 0.25:
             return r.choice(["it", "item", "_index", "step", "_keys", "parentloop", "index", "length",
                              "name", "rindex0", "first", "last"])
@@ -1042,6 +1235,8 @@ def twin(spec: tuple, r: Any) -> tuple:
         return (t, [twin(x, r) for x in spec[1]])
     if t == "dict":
         return ("dict", [(k, twin(v, r)) for k, v in spec[1]])
+    if t == "hyb":
+        return ("hyb", dict(spec[1], secret=SENT2))
     if t != "obj":
         return spec
     o = dict(spec[1])
@@ -1719,7 +1914,8 @@ def special_objs(g: Gen) -> list[tuple[str, tuple]]:
     foo = ("obj", {"id": g.nid, "kind": "plain", "shape": "inst", "hg": False, "async": False, "liq": None,
                    "len": 5, "int": 7, "items": [], "aitems": [], "seq": [], "str": "Bar",
                    "attrs": [("secret", ("val", ("str", SENT))), ("prop", ("prop", ("str", SENT + "p")))]})
-    return [("h", h), ("foo", foo)]
+    hyb = [(n, ("hyb", {"cls": n, "secret": SENT})) for n in g.r.sample(sorted(HYBRID_ATTRS), 3)]
+    return [("h", h), ("foo", foo)] + hyb
 
 
 def tag_templates(v: str, n: str, m: str) -> list[tuple[str, bool]]:
@@ -1859,7 +2055,7 @@ WITNESS_TRANSLATIONS = [
 # ----------------------------------------------------------------------------
 # main
 
-KNOWN_SIGS = set(KNOWN_LITERALS.values()) | {REPR_SIG}
+KNOWN_SIGS = set(KNOWN_LITERALS.values()) | {REPR_SIG, KWARG_SIG}
 
 
 def main(chk: C.Check, build: C.Build) -> None:
@@ -1871,6 +2067,7 @@ def main(chk: C.Check, build: C.Build) -> None:
     proofs_ok = C.proof_stage(chk, build, NEEDED)
     thorough = chk.tier == "thorough"
     r = C.rng("c05")
+    seed_parity = C.seed() % 2
     pkg = os.path.dirname(os.path.abspath(liquid2.__file__)) + os.sep
     g = Gen(r)
     dist = {"ok": 0, "error": 0, "async": 0, "oracle_renders": 0, "attr_reads_logged": 0,
@@ -1880,7 +2077,11 @@ def main(chk: C.Check, build: C.Build) -> None:
     evaluations = 0
     samples: list[dict[str, Any]] = []
 
+    known_as: list[str | None] = [None]    # set while templates of a known mechanism are run
+
     def report(sig: str, what: str, replay: dict[str, Any]) -> None:
+        if sig not in KNOWN_SIGS and known_as[0]:
+            sig = known_as[0]
         chk.finding(sig if sig in KNOWN_SIGS else "oracle:" + sig, what, replay)
 
     def oracle_run(src: str, data: list[tuple[str, tuple]], **kw: Any) -> dict[bool, tuple]:
@@ -1961,6 +2162,13 @@ def main(chk: C.Check, build: C.Build) -> None:
         chk.finding(REPR_SIG, f"{{{{ d }}}} for a dict holding an object prints repr(obj), not str(obj): {out[1]!r:.80}",
                     {"source": "{{ d }}", "data": [("d", ("dict", [("k", ro)]))], "implementation": out})
 
+    ko = hook_obj(1, [("secret", ("val", ("str", SENT)))])
+    out = run_impl("{{ 'x' | t: context: o }}", [("o", ko)])
+    if any(n in ("env", "resolve", "extend") for n, *_ in LOG.attr):
+        chk.finding(KWARG_SIG, "{{ 'x' | t: context: o }} hands the template's o to the filter in place of the render "
+                    f"context: the filter reads {sorted({n for n, *_ in LOG.attr if not n.startswith('__')})} of o ({out[1]})",
+                    {"source": "{{ 'x' | t: context: o }}", "data": [("o", ko)], "implementation": out})
+
     # -- 1. the getattr-by-name drops ------------------------------------------
     ka = kernel_a_items(thorough)
     for f in DROP_FAILURES[:3]:
@@ -2016,6 +2224,25 @@ def main(chk: C.Check, build: C.Build) -> None:
     for src in key_templates():
         for undef in UNDEFS:
             oracle_run(src, kd, undef=undef, names=set(re.findall(r"[A-Za-z_][A-Za-z0-9_]*", src)))
+    # named tuples and the other hybrid shapes: every attribute name, dotted / bracketed /
+    # variable-keyed, through paths, filters and loops
+    hd = hybrid_data()
+    for i, src in enumerate(hybrid_templates()):
+        if thorough or i % 2 == seed_parity:
+            oracle_run(src, hd, undef=UNDEFS[i % 4], names=set(re.findall(r"[A-Za-z_][A-Za-z0-9_]*", src)))
+    # keyword arguments named like the parameters the library injects, on every registered filter
+    known_as[0] = KWARG_SIG
+    fenv = make_env(True, False)
+    for rnd in range(1 if not thorough else 4):
+        kdata = g.data() + special_objs(g)
+        kv = [k for k, _ in kdata]
+        for fname in sorted(fenv.filters):
+            v, w = r.choice(kv), r.choice(kv)
+            for src in (f"{{{{ {v} | {fname}: context: {w} }}}}", f"{{{{ {v} | {fname}: environment: {w} }}}}",
+                        f"{{{{ {v} | {fname}: 'a', context: {w}, environment: {v} }}}}",
+                        f"{{{{ 'a' | {fname}: {v}, environment: {w}.secret, context: nil }}}}"):
+                oracle_run(src, kdata, shopify=True, names={"context", "environment"})
+    known_as[0] = None
     dd = duck_data()
     for src, shop in duck_templates():
         for ae in (False, True):
